@@ -478,6 +478,17 @@ def r5_no_lost_wakeup(chk: Check):
     chk.require(bool(outs0) and not bad0, chk.fkey(sub, "no dependencies -> READY + wake"),
                 f"a job without dependencies reaches the first suspension point of aio_submit having done {bad0[:1]}: it must be READY with its ready event set (nothing else will ever wake it)",
                 chk.loc(sub.module, sub.node))
+    # registrations are for life: nothing removes a dependency from its origin's dependents (a later release would not reach the job)
+    pruned = []
+    for ff in tree.nontest_funcs():
+        for c in fn_calls(ff.node):
+            if isinstance(c.func, ast.Attribute) and c.func.attr in ("discard", "remove", "clear", "pop", "difference_update") and "dependents" in src(c.func.value):
+                pruned.append((ff, c))
+    for ff, c in pruned:
+        chk.violation(chk.fkey(ff, "removes a dependent"), f"`{ff.qual}` removes entries from a resource's dependents (`{src(c)}`): after an aborted start (another dependency could not be locked) the job is "
+                      "no longer notified when that resource is released and waits forever", chk.loc(ff.module, c))
+    if not pruned:
+        chk.ok("scheduler:dependents never pruned", "", "no removal from any `dependents` collection")
     # dependency registration precedes the first check (a release between check and registration would be lost)
     found_inline = False
     for n in g.live:
